@@ -11,9 +11,10 @@ import (
 	"fmt"
 	"os"
 	"time"
+	"verifharness/c11x"
 
-	"verifharness/internal/isolate"
 	"verifharness/geometry"
+	"verifharness/internal/isolate"
 	"verifharness/metadata"
 	"verifharness/piecestore"
 	"verifharness/sched"
@@ -23,6 +24,7 @@ import (
 
 var bindings = map[string]func(in []byte) any{
 	"piecestore": piecestore.Replay,
+	"c11x":       c11x.Handle,
 	"sched":      sched.Replay,
 	"tracker":    trackerb.Handle,
 	"geometry":   geometry.Handle,
